@@ -72,7 +72,7 @@ impl CaseInput for SecEqCase {
         };
         let variant = |r: &mut Rng, a: &str| -> String {
             let chars: Vec<char> = a.chars().collect();
-            match r.below(8) {
+            match r.below(10) {
                 0 => a.to_string(),
                 1 if !chars.is_empty() => {
                     // differ in exactly one position (every offset is reachable)
@@ -86,6 +86,13 @@ impl CaseInput for SecEqCase {
                 4 => format!("{a} "),
                 5 => a.replace('é', "e\u{301}"), // NFD look-alike
                 6 => a.to_uppercase(),
+                7 => format!("{a}{}", "x".repeat(*r.pick(&[256usize, 512, 255, 257, 64, 65536]))), // length differs by a multiple of 2^8 / 2^16
+                8 => {
+                    // same length modulo 256, not a prefix
+                    let mut s = "y".repeat(256);
+                    s.push_str(a);
+                    s
+                }
                 _ => gen::hostile_s(r),
             }
         };
